@@ -40,6 +40,31 @@ theorem clone_os (vm : VM) : (clone codeFacts vm).os = vm.os := by
 
 theorem clone_gf (F : Facts) (vm : VM) : (clone F vm).gf = vm.gf := rfl
 
+/-- as far as the OS is concerned a clone is its original -/
+theorem clone_code (vm : VM) : clone codeFacts vm = vm := by
+  cases vm; simp [clone, codeFacts]
+
+/-- the configuration of an API evaluation, applied to an existing machine by the code as it is:
+    a named OS replaces the machine's, no named OS leaves it alone -/
+theorem applyCfg_code (vm : VM) (o : Option OSId) :
+    applyCfg codeFacts vm o = match o with
+      | some x => { vm with os := some x }
+      | none => vm := by
+  cases o <;> rfl
+
+/-- a callback fired through the clone-call function with a foreign context runs under the same
+    context as a `Call` of the VM with that context would: `clone.initContext` resolves the OS anew -/
+theorem foreignCtx_code (vm : VM) (c : Option OSId) :
+    foreignCtx codeFacts vm c = entryCtx codeFacts vm c := by
+  unfold foreignCtx entryCtx
+  rw [clone_code]
+  rfl
+
+theorem runTop_os (inv : List FnEntry) (F : Facts) (sc : Script) (vm : VM) (c : Option OSId) (cache : Cache) :
+    (runTop inv F sc vm c cache).1.os = vm.os := by
+  unfold runTop
+  split <;> rfl
+
 /-- a clean inventory produces no direct-sink observation for any function -/
 theorem effectfulDirect_nil (inv : List FnEntry) (hinv : inv.all entryClean = true) (fn : String) :
     effectfulDirect inv fn = [] := by
